@@ -145,11 +145,10 @@ theorem core_step_none (c : Chunk) (hc : isCore c = true) (S : St) (h : stepChun
 
 /-- the parser's step on a close marker, whatever the specification thinks of it -/
 theorem close_marker_run (pfuel : Nat) (n : List Char) (ws : List (List Char)) (hn : isIdent n = true)
-    (hr : isReplName n = false) (hws : wsOk ws = true) (S : St) (R : List Char) (st : LoopSt) (s : PS)
+    (hws : wsOk ws = true) (S : St) (R : List Char) (st : LoopSt) (s : PS)
     (hinv : Inv S (renderChunk (.close n ws) ++ R) st s) :
     ∃ (st1 : LoopSt) (s1 : PS) (m : Marker), (∀ fuel, mainLoop pfuel (fuel + 1) st s = mainLoop pfuel fuel st1 s1) ∧
       st1.markers = st.markers ++ [m] ∧ m.tag = .close ∧ m.name = String.ofList n ∧ s1.rest.length < s.rest.length := by
-  have hrepl : isReplacement (String.ofList n) = false := by rw [isReplacement_ofList]; exact hr
   obtain ⟨a, t, rfl, hid⟩ := ident_cases hn
   have hw0 := allSpace_slot ws 0 hws
   have hw1 := allSpace_slot ws 1 hws
@@ -163,9 +162,7 @@ theorem close_marker_run (pfuel : Nat) (n : List Char) (ws : List (List Char)) (
   simp only [startsWithSpace, isSpace_lbracket, Bool.and_false, Bool.false_eq_true, if_false] at hrest
   subst hrest
   have hm := marker_close (slot ws 0) (slot ws 1) a t (slot ws 2) R src st.out.length pfuel hw0 hw1 hw2 hid
-  have hms := markerStep_simple pfuel st _ _ _ hm rfl hrepl
-  simp only [show (Tag.close == Tag.selfClose) = false by decide, Bool.and_false, afterTrim, Bool.false_and,
-    Bool.false_eq_true, if_false] at hms
+  have hms := markerStep_close pfuel st _ _ _ hm rfl rfl
   refine ⟨_, _, _, fun fuel => mainLoop_marker pfuel _ fuel st _ src pos _ hms, rfl, rfl, rfl, ?_⟩
   simp only [List.length_cons, List.length_append]; omega
 
@@ -192,7 +189,7 @@ theorem sim_fold_none (pfuel : Nat) : ∀ (cs : List Chunk) (S : St) (st : LoopS
       unfold isCore at hc
       simp only [chunkOk, Bool.and_eq_true, Bool.not_eq_true'] at hc
       obtain ⟨st1, s1, m, hrun, hmk, htag, hname, hlen⟩ :=
-        close_marker_run (pfuel + 1) n ws hc.1.1 hc.2 hc.1.2 S (render cs) st s hinv
+        close_marker_run (pfuel + 1) n ws hc.1.1 hc.1.2 S (render cs) st s hinv
       cases fuel with
       | zero => omega
       | succ f =>
